@@ -19,6 +19,8 @@ void *verif_mmap_want; size_t verif_mmap_len; int verif_mmap_calls, verif_munmap
 int verif_mmap_mode;          /* 0 MAP_FAILED, 1 requested address, 2 another address */
 unsigned char verif_header_bytes[24];
 
+/* the two cache refreshes are logged: which topology was refreshed last, and whether that happened after the dup */
+hwloc_topology_t verif_last_dist_refresh, verif_last_memattrs_refresh; int verif_dup_done, verif_dist_refresh_after_dup, verif_memattrs_refresh_after_dup;
 int hwloc__topology_dup(hwloc_topology_t *newp, hwloc_topology_t old, struct hwloc_tma *tma)
 {
   unsigned k;
@@ -29,11 +31,12 @@ int hwloc__topology_dup(hwloc_topology_t *newp, hwloc_topology_t old, struct hwl
   }
   if (dup_fails) return -1;
   *newp = (hwloc_topology_t)req_ptr[0];
+  verif_dup_done = 1;
   return 0;
 }
 void hwloc_topology_destroy(hwloc_topology_t t) { (void)t; }
-void hwloc_internal_distances_refresh(hwloc_topology_t t) { (void)t; }
-void hwloc_internal_memattrs_refresh(hwloc_topology_t t) { (void)t; }
+void hwloc_internal_distances_refresh(hwloc_topology_t t) { verif_last_dist_refresh = t; if (verif_dup_done) verif_dist_refresh_after_dup = 1; }
+void hwloc_internal_memattrs_refresh(hwloc_topology_t t) { verif_last_memattrs_refresh = t; if (verif_dup_done) verif_memattrs_refresh_after_dup = 1; }
 void hwloc_components_init(void) { }
 void hwloc_components_fini(void) { }
 long sysconf(int name) { (void)name; return (long)verif_pagesize; }
